@@ -35,7 +35,7 @@ SIMPLE_OPS = ["diff", "interp", "min", "max", "cumsum", "cumint", "derivative", 
               "bad_set_metrics_list", "bad_set_metrics_new", "bad_set_metrics_occupied",
               "get_metric_product_c", "get_metric_product_o", "integrate_product_o"]
 FACE_OPS = ["diff", "interp", "max", "vec_diff", "vec_interp", "vec_multi", "diff_2d_vector", "interp_2d_vector", "pad_scalar",
-            "pad_vector", "lazy_vec", "bad_axis", "vec_no_other", "cumsum"]
+            "pad_vector", "lazy_vec", "bad_axis", "vec_no_other", "cumsum", "bad_2d_vector_boundary", "bad_2d_vector_fill", "bad_vec_boundary"]
 
 
 def gen_case(rng, i, tier):
@@ -263,6 +263,13 @@ def do(op, W, g, desc):
         return g.diff_2d_vector(W["VEC"], boundary="fill")
     if op == "interp_2d_vector":
         return g.interp_2d_vector(W["VEC"], boundary=W["B"])
+    # calls that raise inside the per-component work (after the argument checks): the dictionaries stay as they were
+    if op == "bad_2d_vector_boundary":
+        return g.diff_2d_vector(W["VEC"], boundary="bogus")
+    if op == "bad_2d_vector_fill":
+        return g.interp_2d_vector(W["VEC"], boundary="fill", fill_value={"X": 1.0, "Y": "a"})
+    if op == "bad_vec_boundary":
+        return g.interp(W["VD"], "X", other_component=W["OC"], boundary={"X": "bogus"})
     if op == "pad_scalar":
         return pad(W["da"], g, W["PW"], boundary=W["B"], fill_value=W["F"])
     if op == "pad_vector":
